@@ -25,6 +25,7 @@ type Explorer struct {
 	S        Setting
 	Deadline time.Time
 	Workers  int // 0 = all cores
+	MaxState int // 0 = 4,000,000
 	capped   bool
 
 	bfs      *explore.BFS[*node]
@@ -73,7 +74,11 @@ func (e *Explorer) check(hist []Step, w *World, res Result) bool {
 }
 
 func (e *Explorer) Run() {
-	b := &explore.BFS[*node]{Workers: e.Workers, MaxStates: 4000000, Deadline: e.Deadline, KeyOf: func(n *node) explore.Key { return explore.HashKey([]byte(n.key)) }}
+	maxStates := 4000000
+	if e.MaxState > 0 {
+		maxStates = e.MaxState
+	}
+	b := &explore.BFS[*node]{Workers: e.Workers, MaxStates: maxStates, Deadline: e.Deadline, KeyOf: func(n *node) explore.Key { return explore.HashKey([]byte(n.key)) }}
 	e.bfs = b
 	w0 := NewWorld(e.S)
 	init := &node{key: w0.Key()}
